@@ -22,8 +22,13 @@ type Outcome struct {
 	// Foreign: at some step the item tracker held an action for a key the writer never operated on (the B-tree
 	// registered another item: inner-node removal tracks the leaf successor, a tracked read aliases a slot that later
 	// shifts). Such a case is outside the commit-loop model; its protocol lines are not emitted.
-	Foreign    bool
-	Unfinished bool
+	Foreign bool
+	// NodeRemovalRolledBack: a writer with an injected failure had a REMOVED node in its write set. Its rollback
+	// (rollbackRemovedNodes) zeroes the handle's WorkInProgressTimestamp although the handle still carries the previous
+	// commit's inactive id, after which no writer can allocate an id on that node again (C07's territory: blockage
+	// after a failed commit). Outside the commit-loop model; the case's protocol lines are not emitted.
+	NodeRemovalRolledBack bool
+	Unfinished            bool
 }
 
 func pagesArg(ps []string) string {
@@ -132,6 +137,11 @@ func Drive(ctx context.Context, s *hx.Session, sc Scenario, sched []int, header 
 			s.Hit("excluded:btree_tracks_another_item")
 			return
 		}
+		if o.NodeRemovalRolledBack {
+			s.BeginCase(caseHeader + " not-modelled=failed-commit-rolls-back-a-node-removal")
+			s.Hit("excluded:failed_commit_rolls_back_a_node_removal")
+			return
+		}
 		s.BeginCase(caseHeader)
 		for _, l := range lines {
 			s.Op(l.op, l.out)
@@ -193,6 +203,13 @@ func Drive(ctx context.Context, s *hx.Session, sc Scenario, sched []int, header 
 			emit(fmt.Sprintf("step %d pages=%s", i, pages), obs)
 		}
 		hits = append(hits, "step:"+w.stateArg())
+		if w.Spec.Fault != nil {
+			for _, pg := range w.Pages(r.Env.Canon) {
+				if strings.HasSuffix(pg, ":remove") {
+					o.NodeRemovalRolledBack = true
+				}
+			}
+		}
 		for _, tr := range w.Tracked() {
 			f := strings.Split(tr, ":")
 			var k int
